@@ -314,7 +314,8 @@ def live_cases(ctx, n):
 
 def run(ctx):
     import logging
-    logging.getLogger("deep").setLevel(logging.CRITICAL + 1)
+    from ..lib.quiet import quiet_logging
+    quiet_logging()
     ctx.rule = ("(a) synthetic frame chains (1-3 frames, files inside/outside app root, include and exclude prefixes, self "
                 "present/absent) whose locals hold generated object graphs x limits x frame_type x 0-3 watches, through "
                 "the real TriggerHandler.trace_call; (b) live generated programs (method + nested calls + loops, locals "
